@@ -229,6 +229,7 @@ package pool
 //@   modifies m.Options, m.Options[len(m.Options) : cap(m.Options)], m.Payload, m.Code, m.Token, m.Type, m.MessageID
 //@   ensures [too-small-full] errors.Is(err, message.ErrOptionsTooSmall) ==> len(m.Options) == cap(m.Options) && cap(m.Options) == cap(old(m.Options)) && cap(m.Options) < optsNeeded(buf)
 //@   ensures [n] err == nil ==> n == len(buf)
+//@   ensures [sorted] err == nil && len(old(m.Options)) == 0 ==> sortedOpts(m.Options)
 //@   ensures [needed-bounded] 0 <= optsNeeded(buf) && optsNeeded(buf) <= len(buf)
 //@   ensures [same-array] m.Options[0:0] == old(m.Options)[0:0] && cap(m.Options) == cap(old(m.Options)) && len(m.Options) >= len(old(m.Options))
 //@   ensures [points-into-data] err == nil ==> within(m.Token, buf) && within(m.Payload, buf) && (forall i int :: {len(m.Options[i].Value)} len(old(m.Options)) <= i && i < len(m.Options) ==> within(m.Options[i].Value, buf))
@@ -239,6 +240,7 @@ package pool
 //@   ensures [own-copy] err == nil ==> within(r.msg.Token, r.bufferUnmarshal) && within(r.msg.Payload, r.bufferUnmarshal) && (forall i int :: {len(r.msg.Options[i].Value)} 0 <= i && i < len(r.msg.Options) ==> within(r.msg.Options[i].Value, r.bufferUnmarshal))
 //@   ensures [buffer-kept] r.bufferUnmarshal == old(r.bufferUnmarshal)
 //@   ensures [consumed] err == nil ==> n == len(r.bufferUnmarshal)
+//@   ensures [sorted] err == nil ==> sortedOpts(r.msg.Options)
 //@   loop 0:
 //@     modifies r.msg.Options, r.msg.Options[0 : cap(r.msg.Options)], r.msg.Payload, r.msg.Code, r.msg.Token, r.msg.Type, r.msg.MessageID
 //@     invariant [buffer-kept] r.bufferUnmarshal == old(r.bufferUnmarshal)
@@ -254,6 +256,7 @@ package pool
 //@   ensures [not-the-callers] len(data) > 0 ==> r.bufferUnmarshal.obj != data.obj
 //@   ensures [copy-is-exact] len(r.bufferUnmarshal) == len(data) && bytesEq(r.bufferUnmarshal, data)
 //@   ensures [consumed] err == nil ==> n == len(data)
+//@   ensures [sorted] err == nil ==> sortedOpts(r.msg.Options)
 //
 // Assumed contracts of the pool (a message handed out is held by nobody else - the ownership discipline
 // of C12 - so for the receiver it is as good as newly allocated; it is empty):
@@ -297,3 +300,7 @@ package pool
 //@   modifies r.msg.Token, r.msg.Code, r.msg.Options, r.msg.MessageID, r.msg.Type, r.msg.Payload, r.valueBuffer, r.body, r.isModified, r.controlMessage, r.bufferMarshal, r.bufferUnmarshal
 //@   ensures [emptied] len(r.msg.Options) == 0 && r.msg.Token == nil && r.msg.Payload == nil && r.body == nil && !r.isModified && r.msg.Code == 0
 //@   ensures [ownership-flag-kept] atomicLoad(r.hijacked) == old(atomicLoad(r.hijacked))
+//
+//@ func (*Message) IsPing(isTCP bool) (b bool)
+//@   trusted
+//@   requires r != nil
